@@ -170,3 +170,12 @@ impl<'a, K: SmallKey> core::ops::Sub<&'a BTreeSet<K>> for &'a BTreeSet<K> {
         BTreeSet::model_from_bits(self.bits & !o.bits)
     }
 }
+impl<K: SmallKey, const M: usize> From<[K; M]> for BTreeSet<K> {
+    fn from(a: [K; M]) -> Self {
+        let mut s = BTreeSet::default();
+        for k in a {
+            s.insert(k);
+        }
+        s
+    }
+}
